@@ -2395,7 +2395,7 @@ func ruleWitnessCoveredShortcut(c *Ctx) {
 	// (1) the known-header branch: the if statement comparing the block index with HeaderHeight()+1
 	var hdrIf *ast.IfStmt
 	ast.Inspect(fd.Decl.Body, func(x ast.Node) bool {
-		if is, ok := x.(*ast.IfStmt); ok && hdrIf == nil && is.Else != nil {
+		if is, ok := x.(*ast.IfStmt); ok && hdrIf == nil {
 			m := f.DirectMentions(is.Cond)
 			if (m["pkg/core.(*Blockchain).HeaderHeight"] || m["pkg/core.(*HeaderHashes).HeaderHeight"]) && m[fldBlockIndex] {
 				hdrIf = is
@@ -2407,7 +2407,16 @@ func ruleWitnessCoveredShortcut(c *Ctx) {
 		c.Lost("witness-covered-shortcut.known-header.anchor", "the branch on `block.Index == HeaderHeight()+1` was not found in AddBlock")
 	} else {
 		looks := false
-		ast.Inspect(hdrIf.Else, func(x ast.Node) bool {
+		// the code that handles a header somebody else recorded: the else branch, or - when the comparison is made on
+		// every path - whatever follows the if statement
+		var region ast.Node = hdrIf.Else
+		if region == nil {
+			region = fd.Decl.Body
+		}
+		ast.Inspect(region, func(x ast.Node) bool {
+			if x == ast.Node(hdrIf.Body) {
+				return false
+			}
 			switch y := x.(type) {
 			case *ast.SelectorExpr:
 				if v, ok := f.Info.ObjectOf(y.Sel).(*types.Var); ok && v.IsField() && symOf(v) == "pkg/core/block#Script" {
@@ -2421,9 +2430,9 @@ func ruleWitnessCoveredShortcut(c *Ctx) {
 			return true
 		})
 		if looks {
-			c.OK("witness-covered-shortcut.known-header", c.P.Pos(hdrIf.Else.Pos()), "the known-header branch looks at the block's witness (compares or verifies it)")
+			c.OK("witness-covered-shortcut.known-header", c.P.Pos(hdrIf.Pos()), "the known-header branch looks at the block's witness (compares or verifies it)")
 		} else {
-			c.Fail("witness-covered-shortcut.known-header", c.P.Pos(hdrIf.Else.Pos()), "Blockchain.AddBlock: when the header of the block is already known only the block hash is compared with the known one; the hash does not cover the witness, so a copy of the block with any other witness (unsigned, `PUSH1`) is accepted and StoreAsBlock overwrites the verified header with it")
+			c.Fail("witness-covered-shortcut.known-header", c.P.Pos(hdrIf.Pos()), "Blockchain.AddBlock: when the header of the block is already known only the block hash is compared with the known one; the hash does not cover the witness, so a copy of the block with any other witness (unsigned, `PUSH1`) is accepted and StoreAsBlock overwrites the verified header with it")
 		}
 	}
 	// (2) the pooled-transaction shortcut: the if statement whose body hands the transaction to the scratch pool
